@@ -1630,6 +1630,16 @@ def compress_iterative_numeric(mk, method):
     mk.eq(f"{method}: value reproduced when the cap is not binding", _flat(vdense(c)), want, tol=1e-4)
     mk.same(f"{method}: max_bond=1 respected", c1_.max_bond() <= 1, True)
     _structure_goals(mk, f"{method} max_bond=1", c1_, L, out, "vec")
+    # caps above the methods' internal starting / doubling sizes and off their grids (a long chain whose exact
+    # bonds exceed every cap): the cap is a promise about shapes, whatever the values
+    rng = np.random.default_rng(11)
+    big = qtn.MatrixProductState([rng.normal(size=((24, 2) if i in (0, 9) else (24, 24, 2))) for i in range(10)])
+    big = big / big.norm()
+    for cap in (3, 9, 12, 20):
+        with warnings.catch_warnings():
+            warnings.simplefilter("ignore")
+            cb = cp.tensor_network_1d_compress(big, max_bond=cap, cutoff=0.0, method=method)
+        mk.same(f"{method}: max_bond={cap} respected on a long chain (exact bonds up to 24)", cb.max_bond() <= cap, True)
 
 
 # ---------------------------------------------------------------------- documented options of the 1D compression drivers
